@@ -495,6 +495,9 @@ func (g *gen) useVar(posT *x.Ty) *x.Val {
 	}
 	if vd.Def != nil {
 		g.flag("var_default")
+		if vd.Def.K == "null" && vd.T.StripNN().K == 1 {
+			g.flag("default_null_list")
+		}
 	}
 	supply := true
 	switch {
@@ -1208,8 +1211,12 @@ func mutate(r *common.Rand, s *x.Schema, c *genCase) (*genCase, string) {
 		fb.Alias = resp
 		return out, "alias_collision"
 	default:
-		if len(d.Frags) > 0 && len(sets) > 0 {
-			st := common.PickOf(r, sets)
+		// only inside operations: a spread placed in a fragment definition could close a cycle, and
+		// the inlining pass on its own (without the cycle guard of the first stage) does not terminate
+		var opsets []site
+		walkSelSets(s, &x.Doc{Ops: d.Ops}, func(p string, sels *[]*x.Sel) { opsets = append(opsets, site{p, sels, 0}) })
+		if len(d.Frags) > 0 && len(opsets) > 0 {
+			st := common.PickOf(r, opsets)
 			f := common.PickOf(r, d.Frags)
 			*st.sels = append(*st.sels, &x.Sel{K: 2, Name: f.Name})
 			return out, "spread_anywhere"
